@@ -282,7 +282,10 @@ def run_generate(cli, etas, sizes, prob, bias, code_class, deformation_name, lab
     cli.open = fake_open
     cli.os = Os()
     try:
-        cli.generate_input.callback('/data', sizes, 'MatchingDecoder', bias, ','.join(etas), prob,
+        import panqec.codes as pc
+        decoder = 'MatchingDecoder' if getattr(pc, code_class).dimension == 2 and 'Color' not in code_class \
+            else 'BeliefPropagationOSDDecoder'
+        cli.generate_input.callback('/data', sizes, decoder, bias, ','.join(etas), prob,
                                     code_class, 'PauliErrorModel', deformation_name, 'direct', label)
     finally:
         if saved[0] is None:
@@ -293,7 +296,7 @@ def run_generate(cli, etas, sizes, prob, bias, code_class, deformation_name, lab
     return files
 
 
-def expected_simulations(etas, sizes, prob, bias):
+def expected_simulations(etas, sizes, prob, bias, code_class='Toric2DCode'):
     import panqec.cli as cli
     import panqec.utils as ut
     rates = cli.read_range_input(prob)
@@ -302,8 +305,12 @@ def expected_simulations(etas, sizes, prob, bias):
         d = ut.get_direction_from_bias_ratio(bias, eta)
         for s in sizes.split(','):
             L = [int(x) for x in s.split('x')]
+            # documented form [Lx]x[Ly]x[Lz]; missing components default to Lx
+            full = (L[0], L[1] if len(L) >= 2 else L[0], L[2] if len(L) == 3 else L[0])
+            import panqec.codes as pc
+            dim = getattr(pc, code_class).dimension
             for r in rates:
-                out.append((tuple(L), (d['r_x'], d['r_y'], d['r_z']), r))
+                out.append((full[:dim], (d['r_x'], d['r_y'], d['r_z']), r))
     return sorted(out)
 
 
@@ -328,6 +335,7 @@ def w_files(cfg, tier):
     parts = dict(p.split('=') for p in cfg.split()[1:])
     m, bias = int(parts['len']), parts['bias']
     sizes, prob = parts.get('sizes', '2x2,3x3'), parts.get('prob', '0.1,0.2')
+    code_class = parts.get('code', 'Toric2DCode')
     col = hz.Collector(cfg)
     col.encoded(cli.generate_input.callback, cli.read_bias_ratios)
     eng = Engine(name=cfg, max_paths=500)
@@ -338,7 +346,7 @@ def w_files(cfg, tier):
 
         def fn():
             etas = [ETAS[int(i)] for i in idx]
-            files = run_generate(cli, etas, sizes, prob, bias, 'Toric2DCode', None, None)
+            files = run_generate(cli, etas, sizes, prob, bias, code_class, None, None)
             return etas, files
         ps = eng.explore(fn)
     col.absorb(eng)
@@ -351,7 +359,7 @@ def w_files(cfg, tier):
         etas, files = p.value
         try:
             got = simulations_on_disk(files)
-            ok = got == expected_simulations(etas, sizes, prob, bias)
+            ok = got == expected_simulations(etas, sizes, prob, bias, code_class)
         except Exception as ex:
             ok = False
         if not ok and first_bad is None:
@@ -360,7 +368,7 @@ def w_files(cfg, tier):
 
     def wit(mo):
         return dict(etas=[ETAS[mo.eval(i.t, model_completion=True).as_long()] for i in idx], sizes=sizes,
-                    prob=prob, bias=bias)
+                    prob=prob, bias=bias, code=code_class)
     col.prove('C19/generate_input/read-back-simulations-are-sizes-x-ratios-x-rates', eng.base, z3_or(bad), wit,
               f'{len(ps)} solver-chosen bias-ratio lists of length {m}: files on disk, parsed by read_input_dict, '
               'contain one simulation per (size, bias ratio, error rate) and nothing else')
@@ -399,9 +407,10 @@ def replay(path):
             want = 1.0 if eta == np.inf else eta / (1 + eta)
             bad = abs(sum(dd.values()) - 1) > 1e-12 or abs(dd[key] - want) > 1e-12
         elif cfg.startswith('files'):
-            files = run_generate(cli, w['etas'], w['sizes'], w['prob'], w['bias'], 'Toric2DCode', None, None)
+            files = run_generate(cli, w['etas'], w['sizes'], w['prob'], w['bias'], w.get('code', 'Toric2DCode'), None, None)
             print('files written:', sorted(files))
-            bad = simulations_on_disk(files) != expected_simulations(w['etas'], w['sizes'], w['prob'], w['bias'])
+            bad = simulations_on_disk(files) != expected_simulations(w['etas'], w['sizes'], w['prob'], w['bias'],
+                                                                      w.get('code', 'Toric2DCode'))
         elif cfg.startswith('arange-model'):
             bad = True
     except Exception as ex:
@@ -420,7 +429,9 @@ def configs(tier):
                [(k, j, c, r) for k in (1, 2) for j in (0, 1, 4) for c, r in ((2, 1), (5, 2), (5, 4))]
     out += [f'range k={k} j={j} c={c} r={r}' for k, j, c, r in grid]
     out += [f'direction bias={b}' for b in 'XYZ']
-    out += ['files len=1 bias=Z', 'files len=2 bias=Z'] + (['files len=3 bias=X', 'files len=2 bias=Y'] if tier != 'quick' else [])
+    out += ['files len=1 bias=Z', 'files len=2 bias=Z', 'files len=1 bias=X sizes=2x3,3x2,4 prob=0.1:0.3:0.1',
+            'files len=1 bias=Y sizes=2x3x4,3x2x2,2 code=Toric3DCode prob=0.05'] + \
+        (['files len=3 bias=X', 'files len=2 bias=Y', 'files len=2 bias=Z sizes=3x2x4,2x2x3 code=Planar3DCode'] if tier != 'quick' else [])
     return out
 
 
